@@ -19,11 +19,13 @@ def stepName : Step → String
   | .closeC => "writeFunc"
 
 /-- every CacheContext in the application code; the model's `openC … closeC` blocks are the entries of
-x/delegation (EndBlock, both msg handlers), x/operator (UpdateVotingPower, both msg handlers, Slash) and
-x/evm ApplyTransaction (the EVM tx wrapper) -/
+x/delegation (EndBlock, both msg handlers), x/operator (UpdateVotingPower, both msg handlers, Slash), precompiles/assets (DepositOrWithdraw, RegisterToken),
+x/oracle UpdateNSTByBalanceChange and x/evm ApplyTransaction (the EVM tx wrapper) -/
 theorem C09_tie_cache_sites :
     cacheContextSites =
       ["app/ante/utils/claim_rewards.go:ClaimSufficientStakingRewards",
+       "precompiles/assets/tx.go:DepositOrWithdraw",
+       "precompiles/assets/tx.go:RegisterToken",
        "x/appchain/coordinator/keeper/ibc_client.go:CreateClientForSubscriberInCachedCtx",
        "x/avs/keeper/avs.go:RegisterAVSWithChainID",
        "x/delegation/keeper/abci.go:EndBlock",
@@ -37,7 +39,8 @@ theorem C09_tie_cache_sites :
        "x/operator/keeper/abci.go:UpdateVotingPower",
        "x/operator/keeper/msg_server.go:OptIntoAVS",
        "x/operator/keeper/msg_server.go:OptOutOfAVS",
-       "x/operator/keeper/slash.go:Slash"] := by decide
+       "x/operator/keeper/slash.go:Slash",
+       "x/oracle/keeper/native_token.go:UpdateNSTByBalanceChange"] := by decide
 
 /-- every transaction method of the four precompiles turns its error into `false` (this is what makes
 `precompileCall` the right wrapper); the four AVS queries do not -/
@@ -70,22 +73,30 @@ theorem C09_tie_slashInfo_order :
     callSeqUpdateOperatorSlashInfo.filter (· ∈ ["AccAddressFromBech32", "Has", "GetAVSSlashContract", "GT", "Set"]) =
       ["AccAddressFromBech32", "Has", "GetAVSSlashContract", "GT", "Set"] := by decide
 
-/-- RegisterToken: oracle registration precedes SetStakingAssetInfo -/
+/-- RegisterToken: one cache context; the asset is validated and stored first, then the oracle token/feeder
+is registered (whose last step touches the oracle's in-memory cache), `writeFunc()` last — the order of the
+model's `registerToken` (fix of F-09b; the old order was Register…, SetStakingAssetInfo without a cache context) -/
 theorem C09_tie_registerToken_order :
-    callSeqRegisterToken.filter (· ∈ ["CheckExocoreGatewayAddr", "TokenFromInputs", "IsStakingAsset",
-        "RegisterNewTokenAndSetTokenFeeder", "SetStakingAssetInfo"]) =
-      ["CheckExocoreGatewayAddr", "TokenFromInputs", "IsStakingAsset", "RegisterNewTokenAndSetTokenFeeder",
-       "SetStakingAssetInfo"] := by decide
+    callSeqRegisterToken.filter (· ∈ ["CheckExocoreGatewayAddr", "TokenFromInputs", "IsStakingAsset", "CacheContext",
+        "RegisterNewTokenAndSetTokenFeeder", "SetStakingAssetInfo", "writeFunc"]) =
+      ["CheckExocoreGatewayAddr", "TokenFromInputs", "IsStakingAsset", "CacheContext", "SetStakingAssetInfo",
+       "RegisterNewTokenAndSetTokenFeeder", "writeFunc"] ∧
+    (registerToken.take 4).map stepName =
+      ["CheckExocoreGatewayAddr", "TokenFromInputs", "IsStakingAsset(already)", "CacheContext"] ∧
+    registerToken.getLast? = some .closeC := by decide
 
-/-- DepositOrWithdraw: booking precedes the oracle's validator-list update -/
+/-- DepositOrWithdraw: cache context opened after argument parsing; booking, oracle validator-list update and
+the final read run on it; `writeFunc()` last (fix of F-09a) -/
 theorem C09_tie_depositWithdraw_order :
-    callSeqDepositOrWithdraw.filter (· ∈ ["CheckExocoreGatewayAddr", "DepositWithdrawParams", "PerformDepositOrWithdraw",
-        "UpdateNSTValidatorListForStaker", "GetStakerSpecifiedAssetInfo"]) =
-      ["CheckExocoreGatewayAddr", "DepositWithdrawParams", "PerformDepositOrWithdraw", "UpdateNSTValidatorListForStaker",
-       "GetStakerSpecifiedAssetInfo"] ∧
+    callSeqDepositOrWithdraw.filter (· ∈ ["CheckExocoreGatewayAddr", "DepositWithdrawParams", "CacheContext",
+        "PerformDepositOrWithdraw", "UpdateNSTValidatorListForStaker", "GetStakerSpecifiedAssetInfo", "writeFunc"]) =
+      ["CheckExocoreGatewayAddr", "DepositWithdrawParams", "CacheContext", "PerformDepositOrWithdraw",
+       "UpdateNSTValidatorListForStaker", "GetStakerSpecifiedAssetInfo", "writeFunc"] ∧
     callSeqPerformDepositOrWithdraw.filter (· ∈ ["IsNegative", "IsStakingAsset", "UpdateStakerAssetState",
         "UpdateStakingAssetTotalAmount"]) =
-      ["IsNegative", "IsStakingAsset", "UpdateStakerAssetState", "UpdateStakingAssetTotalAmount"] := by decide
+      ["IsNegative", "IsStakingAsset", "UpdateStakerAssetState", "UpdateStakingAssetTotalAmount"] ∧
+    (assetsDepositWithdrawNST.take 3).map stepName = ["CheckExocoreGatewayAddr", "DepositWithdrawParams", "CacheContext"] ∧
+    assetsDepositWithdrawNST.getLast? = some .closeC ∧ assetsDepositWithdrawLST.getLast? = some .closeC := by decide
 
 /-- delegateTo: the staker's record is written before CalculateShare and the operator/delegation updates -/
 theorem C09_tie_delegateTo_order :
@@ -103,11 +114,23 @@ theorem C09_tie_undelegateFrom_order :
       ["IsPositive", "IsOperator", "ValidateUndelegationAmount", "RemoveShare", "SetUndelegationRecords",
        "AfterUndelegationStarted"] := by decide
 
-/-- UpdateNSTByBalanceChange: inside the per-staker loop the delegation update and the store write come
-after the (failing) checks of the *same* iteration only — there is no cache context in the function -/
+/-- UpdateNSTByBalanceChange: the cache context is opened after the raw data was parsed and before the
+per-staker loop; the loop's delegation update and store write run on it; `writeFunc()` after the loop (fix of F-09d) -/
 theorem C09_tie_nstBalanceChange_order :
-    callSeqUpdateNSTByBalanceChange.filter (· ∈ ["parseBalanceChange", "getDecimal", "UpdateNSTBalance", "Set", "CacheContext"]) =
-      ["parseBalanceChange", "getDecimal", "UpdateNSTBalance", "Set"] := by decide
+    callSeqUpdateNSTByBalanceChange.filter (· ∈ ["parseBalanceChange", "CacheContext", "getDecimal", "UpdateNSTBalance", "Set", "writeFunc"]) =
+      ["parseBalanceChange", "CacheContext", "getDecimal", "UpdateNSTBalance", "Set", "writeFunc"] ∧
+    (updateNSTByBalanceChange2.take 4).map stepName =
+      ["len(rawData)<32", "len(StakerAddrs)==0", "parseBalanceChange", "CacheContext"] ∧
+    updateNSTByBalanceChange2.getLast? = some .closeC := by decide
+
+/-- which callees actually receive the cache context (a `CacheContext()` whose result is not passed on
+protects nothing): Slash, DepositOrWithdraw, RegisterToken, UpdateNSTByBalanceChange -/
+theorem C09_tie_cache_ctx_calls :
+    cacheCtxCalls =
+      [("Slash", ["SlashAssets", "UpdateOperatorSlashInfo"]),
+       ("DepositOrWithdraw", ["PerformDepositOrWithdraw", "UpdateNSTValidatorListForStaker", "GetStakerSpecifiedAssetInfo"]),
+       ("RegisterToken", ["SetStakingAssetInfo", "RegisterNewTokenAndSetTokenFeeder"]),
+       ("UpdateNSTByBalanceChange", ["KVStore", "getDecimal", "UpdateNSTBalance"])] := by decide
 
 /-- UpdateVotingPower: reads, then one cache context around the iteration and the AVS total -/
 theorem C09_tie_updateVotingPower_order :
